@@ -957,4 +957,281 @@ theorem C17_layoutModelS_scale (c : Rat) (hc : 0 < c) (ord : G → M G) (cfg : C
       rw [show c * (0 : Rat) = 0 by grind] at this
       rw [this]
 
+
+/-! ### Brandes–Köpf: everything after the four compactions (selection, balancing, writing) commutes with the scaling -/
+
+open BK in
+theorem le_scale (a b c : Rat) (hc : 0 < c) : c * a ≤ c * b ↔ a ≤ b := by
+  constructor
+  · intro h
+    apply Classical.byContradiction
+    intro hn
+    have := (lt_scale b a c hc).2 (Rat.not_le.1 hn)
+    exact absurd h (Rat.not_le.2 this)
+  · intro h; exact Rat.mul_le_mul_of_nonneg_left h (Rat.le_of_lt hc)
+
+theorem foldl_minRat_fn_scale (c : Rat) (hc : 0 < c) (f : Nat → Rat) : ∀ (l : List Nat) (m : Rat),
+    l.foldl (fun m n => minRat m (c * f n)) (c * m) = c * l.foldl (fun m n => minRat m (f n)) m
+  | [], _ => rfl
+  | n :: l, m => by
+    simp only [List.foldl_cons, minRat_scale _ _ _ hc]
+    exact foldl_minRat_fn_scale c hc f l _
+
+theorem foldl_maxRat_fn_scale (c : Rat) (hc : 0 < c) (f : Nat → Rat) : ∀ (l : List Nat) (m : Rat),
+    l.foldl (fun m n => maxRat m (c * f n)) (c * m) = c * l.foldl (fun m n => maxRat m (f n)) m
+  | [], _ => rfl
+  | n :: l, m => by
+    simp only [List.foldl_cons, maxRat_scale _ _ _ hc]
+    exact foldl_maxRat_fn_scale c hc f l _
+
+theorem xcSize_scale (c : Rat) (hc : 0 < c) (g : G) (xc : Array Rat) :
+    BK.xcSize (scaleG c g) (xc.map (c * ·)) =
+      (c * (BK.xcSize g xc).1, c * (BK.xcSize g xc).2.1, c * (BK.xcSize g xc).2.2) := by
+  unfold BK.xcSize
+  simp only [G.nodeIds, scaleG_nsize']
+  cases List.range g.nodes.size with
+  | nil => simp only [Prod.mk.injEq]; refine ⟨?_, ?_, ?_⟩ <;> grind
+  | cons n0 rest =>
+    simp only [getD_map_scale, scaleG_node_w]
+    have hmin := foldl_minRat_fn_scale c hc (fun n => xc.getD n 0) rest (xc.getD n0 0)
+    have hmax : rest.foldl (fun m n => maxRat m (c * xc.getD n 0 + c * (g.node n).w)) (c * xc.getD n0 0 + c * (g.node n0).w) =
+        c * rest.foldl (fun m n => maxRat m (xc.getD n 0 + (g.node n).w)) (xc.getD n0 0 + (g.node n0).w) := by
+      have := foldl_maxRat_fn_scale c hc (fun n => xc.getD n 0 + (g.node n).w) rest (xc.getD n0 0 + (g.node n0).w)
+      rw [← this]
+      have e0 : c * xc.getD n0 0 + c * (g.node n0).w = c * (xc.getD n0 0 + (g.node n0).w) := by grind
+      rw [e0]
+      congr 1
+      funext m n
+      congr 1; grind
+    simp only [hmin, hmax, Prod.mk.injEq, and_true]
+    grind
+
+/-- the accumulator of `verifyLayout`'s scan, scaled -/
+def scaleOO (c : Rat) (a : Option (Option Rat)) : Option (Option Rat) := a.map (·.map (c * ·))
+
+theorem verifyLayout_scale (c : Rat) (hc : 0 < c) (g : G) (xc : Array Rat) (ns : Rat) :
+    BK.verifyLayout (scaleG c g) (xc.map (c * ·)) (c * ns) = BK.verifyLayout g xc ns := by
+  unfold BK.verifyLayout
+  rw [scaleG_layers_list, List.all_map]
+  apply List.all_congr rfl
+  intro l
+  simp only [Function.comp, scaleLayer]
+  -- the scan over one layer commutes with the scaling of its accumulator
+  have key : ∀ (ns' : List Nat) (acc : Option (Option Rat)),
+      ns'.foldl (fun (acc : Option (Option Rat)) n =>
+        match acc with
+        | none => none
+        | some pos =>
+          let left := (xc.map (c * ·)).getD n 0
+          let right := left + ((scaleG c g).node n).w + c * ns
+          let above := fun (x : Rat) => match pos with
+            | none => true
+            | some p => decide (x > p)
+          if above left && above right then some (some right) else none) (scaleOO c acc) =
+      scaleOO c (ns'.foldl (fun (acc : Option (Option Rat)) n =>
+        match acc with
+        | none => none
+        | some pos =>
+          let left := xc.getD n 0
+          let right := left + (g.node n).w + ns
+          let above := fun (x : Rat) => match pos with
+            | none => true
+            | some p => decide (x > p)
+          if above left && above right then some (some right) else none) acc) := by
+    intro ns'
+    induction ns' with
+    | nil => intro acc; rfl
+    | cons n ns' ih =>
+      intro acc
+      simp only [List.foldl_cons]
+      rw [← ih]
+      congr 1
+      cases acc with
+      | none => rfl
+      | some pos =>
+        simp only [scaleOO, Option.map_some, getD_map_scale, scaleG_node_w]
+        have hr : c * xc.getD n 0 + c * (g.node n).w + c * ns = c * (xc.getD n 0 + (g.node n).w + ns) := by grind
+        rw [hr]
+        cases pos with
+        | none => simp
+        | some p =>
+          simp only [Option.map_some, gt_iff_lt, lt_scale _ _ _ hc]
+          split <;> rfl
+  have h := congrArg Option.isSome (key l.nodes (some none))
+  refine h.trans ?_
+  simp only [scaleOO, Option.isSome_map]
+  rfl
+
+
+/-- the four candidate layouts, scaled -/
+def scaleXcs (c : Rat) (xcs : List (Array Rat)) : List (Array Rat) := xcs.map (·.map (c * ·))
+
+theorem getD_scaleXcs (c : Rat) (xcs : List (Array Rat)) (i : Nat) :
+    (scaleXcs c xcs).getD i #[] = ((xcs.getD i #[]).map (c * ·)) := by
+  simp only [scaleXcs, List.getD_eq_getElem?_getD, List.getElem?_map]
+  cases xcs[i]? <;> simp
+
+theorem listGetD_map_scale (c : Rat) (l : List Rat) (i : Nat) : (l.map (c * ·)).getD i 0 = c * l.getD i 0 := by
+  simp only [List.getD_eq_getElem?_getD, List.getElem?_map]
+  cases l[i]? with
+  | none => simp only [Option.map_none, Option.getD_none]; grind
+  | some v => rfl
+
+theorem balanceLayouts_scale (c : Rat) (hc : 0 < c) (g : G) (xcs : List (Array Rat)) :
+    BK.balanceLayouts (scaleG c g) (scaleXcs c xcs) = (BK.balanceLayouts g xcs).map (c * ·) := by
+  unfold BK.balanceLayouts
+  -- sizes of the candidates
+  have hsz : ∀ i, ((scaleXcs c xcs).map (BK.xcSize (scaleG c g))).getD i (0, 0, 0) =
+      (c * ((xcs.map (BK.xcSize g)).getD i (0, 0, 0)).1, c * ((xcs.map (BK.xcSize g)).getD i (0, 0, 0)).2.1,
+       c * ((xcs.map (BK.xcSize g)).getD i (0, 0, 0)).2.2) := by
+    intro i
+    simp only [scaleXcs, List.getD_eq_getElem?_getD, List.getElem?_map, Option.map_map]
+    cases xcs[i]? with
+    | none => simp only [Option.map_none, Option.getD_none, Prod.mk.injEq]; refine ⟨?_, ?_, ?_⟩ <;> grind
+    | some xc => simp only [Option.map_some, Function.comp, Option.getD_some, xcSize_scale c hc]
+  simp only [hsz, G.nodeIds, scaleG_nsize', gt_iff_lt, lt_scale _ _ _ hc]
+  -- (the narrowest candidate is the same one: its test compares c·width with c·width)
+  have hsort : ∀ (l : List Rat), (l.map (c * ·)).mergeSort (fun a b => decide (a ≤ b)) =
+      (l.mergeSort (fun a b => decide (a ≤ b))).map (c * ·) := by
+    intro l
+    symm
+    apply List.map_mergeSort
+    intro a _ b _
+    simp only [le_scale _ _ _ hc]
+  -- the median of four values that are c times four other values
+  have hgen : ∀ (F F' : Nat → Rat), (∀ i, F' i = c * F i) →
+      ((((List.range 4).map F').mergeSort (fun a b => decide (a ≤ b))).getD 1 0 +
+        (((List.range 4).map F').mergeSort (fun a b => decide (a ≤ b))).getD 2 0) / 2 =
+      c * (((((List.range 4).map F).mergeSort (fun a b => decide (a ≤ b))).getD 1 0 +
+        (((List.range 4).map F).mergeSort (fun a b => decide (a ≤ b))).getD 2 0) / 2) := by
+    intro F F' hF
+    have : (List.range 4).map F' = ((List.range 4).map F).map (c * ·) := by
+      rw [List.map_map]; apply List.map_congr_left; intro i _; exact hF i
+    rw [this, hsort, listGetD_map_scale, listGetD_map_scale, Rat.div_def, Rat.div_def]
+    grind
+  apply Array.ext'
+  simp only [Array.toList_map, List.map_map]
+  apply List.map_congr_left
+  intro n _
+  simp only [Function.comp]
+  apply hgen
+  intro i
+  simp only [getD_scaleXcs, getD_map_scale]
+  split <;> grind
+
+
+theorem bkFinal_scale (c : Rat) (hc : 0 < c) (forced : Int) (ns : Rat) (g : G) (xcs : List (Array Rat)) :
+    BK.bkFinal forced (c * ns) (scaleG c g) (scaleXcs c xcs) = (BK.bkFinal forced ns g xcs).map (c * ·) := by
+  unfold BK.bkFinal
+  split
+  · exact getD_scaleXcs c xcs _
+  · simp only [balanceLayouts_scale c hc, verifyLayout_scale c hc]
+    split
+    · rfl
+    · -- the narrowest verified candidate: the scan carries (layout, width), both scaled
+      have key : ∀ (l : List (Array Rat)) (acc : Array Rat × Rat),
+          (scaleXcs c l).foldl (fun (acc : Array Rat × Rat) xc =>
+            if BK.verifyLayout (scaleG c g) xc (c * ns) && (BK.xcSize (scaleG c g) xc).1 < acc.2 then (xc, (BK.xcSize (scaleG c g) xc).1) else acc)
+            (acc.1.map (c * ·), c * acc.2) =
+          (((l.foldl (fun (acc : Array Rat × Rat) xc =>
+            if BK.verifyLayout g xc ns && (BK.xcSize g xc).1 < acc.2 then (xc, (BK.xcSize g xc).1) else acc) acc).1).map (c * ·),
+           c * (l.foldl (fun (acc : Array Rat × Rat) xc =>
+            if BK.verifyLayout g xc ns && (BK.xcSize g xc).1 < acc.2 then (xc, (BK.xcSize g xc).1) else acc) acc).2) := by
+        intro l
+        induction l with
+        | nil => intro acc; rfl
+        | cons xc l ih =>
+          intro acc
+          simp only [scaleXcs, List.map_cons, List.foldl_cons, verifyLayout_scale c hc, xcSize_scale c hc, lt_scale _ _ _ hc] at ih ⊢
+          split
+          · exact ih (xc, (BK.xcSize g xc).1)
+          · exact ih acc
+      have h := key xcs (BK.balanceLayouts g xcs, (BK.xcSize g (BK.balanceLayouts g xcs)).1)
+      simp only [xcSize_scale c hc] at h ⊢
+      rw [h]
+
+theorem bkPush_scale (c : Rat) (hc : 0 < c) (ns : Rat) (g : G) (p : Nat × Nat) :
+    BK.bkPush (c * ns) (scaleG c g) p = scaleG c (BK.bkPush ns g p) := by
+  unfold BK.bkPush
+  obtain ⟨hx1, _, hw1, _, _, _⟩ := scaleG_node c g p.1
+  obtain ⟨hx2, _, _, _, _, _⟩ := scaleG_node c g p.2
+  simp only [hx1, hx2, hw1, gt_iff_lt, lt_scale _ _ _ hc]
+  have e : c * (g.node p.1).x + c * (g.node p.1).w = c * ((g.node p.1).x + (g.node p.1).w) := by grind
+  simp only [e, lt_scale _ _ _ hc]
+  split
+  · simp only [G.modNode, scaleG]
+    congr 1
+    apply array_map_modify
+    intro nd
+    have : c * ((g.node p.1).x + (g.node p.1).w) + c * ns = c * ((g.node p.1).x + (g.node p.1).w + ns) := by grind
+    simp only [this]
+  · rfl
+
+theorem foldl_bkPush_scale (c : Rat) (hc : 0 < c) (ns : Rat) : ∀ (ps : List (Nat × Nat)) (g : G),
+    ps.foldl (BK.bkPush (c * ns)) (scaleG c g) = scaleG c (ps.foldl (BK.bkPush ns) g)
+  | [], _ => rfl
+  | p :: ps, g => by
+    simp only [List.foldl_cons, bkPush_scale c hc]
+    exact foldl_bkPush_scale c hc ns ps _
+
+theorem foldl_layers_bkPush_scale (c : Rat) (hc : 0 < c) (ns : Rat) : ∀ (ls : List Layer) (g : G),
+    (ls.map (scaleLayer c)).foldl (fun g l => (l.nodes.zip l.nodes.tail).foldl (BK.bkPush (c * ns)) g) (scaleG c g) =
+    scaleG c (ls.foldl (fun g l => (l.nodes.zip l.nodes.tail).foldl (BK.bkPush ns) g) g)
+  | [], _ => rfl
+  | l :: ls, g => by
+    simp only [List.map_cons, List.foldl_cons, scaleLayer, foldl_bkPush_scale c hc]
+    exact foldl_layers_bkPush_scale c hc ns ls _
+
+theorem bkWrite_scale (c : Rat) (hc : 0 < c) (ns : Rat) (g : G) (final : Array Rat) :
+    BK.bkWrite (c * ns) (scaleG c g) (final.map (c * ·)) = scaleG c (BK.bkWrite ns g final) := by
+  unfold BK.bkWrite
+  have hlay : (scaleG c g).layers.toList.flatMap (·.nodes) = g.layers.toList.flatMap (·.nodes) := by
+    rw [List.flatMap_def, scaleG_layers_nodes, ← List.flatMap_def]
+  have hxs : ((g.layers.toList.flatMap (·.nodes)).map fun n => (final.map (c * ·)).getD n 0) =
+      ((g.layers.toList.flatMap (·.nodes)).map fun n => final.getD n 0).map (c * ·) := by
+    simp only [List.map_map, Function.comp_def, getD_map_scale]
+  simp only [hlay, hxs]
+  have hpl := placeAllWith_scale c updX (updX_scale c)
+    [(g.layers.toList.flatMap (·.nodes), (g.layers.toList.flatMap (·.nodes)).map fun n => final.getD n 0)] g
+  simp only [scalePlan, List.map_cons, List.map_nil, placeAll] at hpl ⊢
+  rw [hpl, growAllH_scale c hc]
+  have h0 : (0 : Rat) = c * 0 := by grind
+  have hm : (((g.layers.toList.flatMap (·.nodes)).map fun n => final.getD n 0).map (c * ·)).foldl minRat 0 =
+      c * (((g.layers.toList.flatMap (·.nodes)).map fun n => final.getD n 0).foldl minRat 0) := by
+    have := foldl_minRat_scale c hc ((g.layers.toList.flatMap (·.nodes)).map fun n => final.getD n 0) 0
+    rw [← h0] at this; exact this
+  rw [hm]
+  have hneg : (c * (((g.layers.toList.flatMap (·.nodes)).map fun n => final.getD n 0).foldl minRat 0) < 0) ↔
+      ((((g.layers.toList.flatMap (·.nodes)).map fun n => final.getD n 0).foldl minRat 0) < 0) := by
+    have := lt_scale (((g.layers.toList.flatMap (·.nodes)).map fun n => final.getD n 0).foldl minRat 0) 0 c hc
+    rw [← h0] at this; exact this
+  simp only [hneg]
+  generalize ((g.layers.toList.flatMap (·.nodes)).map fun n => final.getD n 0).foldl minRat 0 = lm
+  generalize growAllH (placeAllWith updX g [(g.layers.toList.flatMap (·.nodes), (g.layers.toList.flatMap (·.nodes)).map fun n => final.getD n 0)]) = g1
+  split
+  · have hshift : ({ scaleG c g1 with nodes := (scaleG c g1).nodes.map fun nd => { nd with x := nd.x - c * lm } } : G) =
+        scaleG c { g1 with nodes := g1.nodes.map fun nd => { nd with x := nd.x - lm } } := by
+      simp only [scaleG, Array.map_map]
+      congr 1
+      apply Array.ext'
+      simp only [Array.toList_map]
+      apply List.map_congr_left
+      intro nd _
+      simp only [Function.comp]
+      congr 1; grind
+    rw [hshift]
+    have hl : ({ g1 with nodes := g1.nodes.map fun nd => { nd with x := nd.x - lm } } : G).layers = g1.layers := rfl
+    rw [scaleG_layers_list, hl]
+    exact foldl_layers_bkPush_scale c hc ns _ _
+  · rw [scaleG_layers_list]
+    exact foldl_layers_bkPush_scale c hc ns _ _
+
+/-- **C17, Brandes–Köpf after the four compactions**: choosing a candidate (forced, balanced if it verifies, else the narrowest verified one)
+    and writing it — coordinates, layer heights, left margin, neighbour pass — commute with the scaling. (The four candidate layouts
+    themselves — conflict marking, vertical alignment, horizontal compaction — are compared at 2^k per run, not proved.) -/
+theorem C17_bk_finish_scale (c : Rat) (hc : 0 < c) (forced : Int) (ns : Rat) (g : G) (xcs : List (Array Rat)) :
+    BK.bkFinish forced (c * ns) (scaleG c g) (scaleXcs c xcs) = scaleG c (BK.bkFinish forced ns g xcs) := by
+  unfold BK.bkFinish
+  rw [bkFinal_scale c hc, bkWrite_scale c hc]
+
 end Autog
